@@ -279,6 +279,12 @@ func (g *c03Gen) lit(t *c03Ty, b int) string {
 		}
 		return t.src() + "{" + strings.Join(parts, ", ") + "}"
 	case "if":
+		if b <= 0 { // no further struct literals below the budget (they may nest interfaces again)
+			if g.n(0, 1, "ifleaf") == 0 {
+				return "nil"
+			}
+			return "IF(nwNI(" + strconv.Itoa(g.n(0, 50, "ni")) + "))"
+		}
 		switch g.n(0, 6, "iflit") {
 		case 0:
 			return "nil"
